@@ -1012,6 +1012,11 @@ def deco(f):
     return f
 
 
+def pdeco(obj):
+    print('decorated %s' % obj.__name__)
+    return obj
+
+
 def mkexc(dots, nested=False):
     cls = type('Err%d' % dots, (Exception,), {})
     cls.__module__ = '.'.join('pkg%d' % i for i in range(dots)) if dots else 'builtins'
